@@ -346,3 +346,10 @@ Definition m_ctor_empty_dtype (d : dty) : dty := s_ctor_empty_dtype d.
    elements lie on the diagonal `offset` of the axis pair; a1 / a2: their coordinates on axis1 / axis2 *)
 Definition m_diagonal_mask (d : dty) (a1 a2 : list Z) (offset : Z) : list bool :=
   s_diagonal_mask (mkT d a1) (mkT d a2) offset.
+
+(* ---------------------------------------------------------------- GCXS._reduce_calc: row numbers of the array
+   re-compressed over the kept axes (x = self.change_compressed_axes(...), through convert._transpose):
+   xd = dtype of self.indices, d_self = dtype of self.indptr, (R, C) = x's compressed shape *)
+Definition m_gcxs_reduce_rows (xd d_self : dty) (R C nnz : Z) : res tarr :=
+  d_x <- transpose_dtype xd R C nnz ;;
+  Ok (s_gcxs_reduce_rows d_self d_x R).
